@@ -409,6 +409,23 @@ func genList(r *rng.R) Input {
 		items = append(items[:at:at], append([]itemJ{it}, items[at:]...)...)
 		lines = append(lines[:at:at], append([]string{RenderLine(fl, "")}, lines[at:]...)...)
 	}
+	if r.Chance(1, 3) { // a member that is not on disk, omitted by wildcard: omit matches members, not files
+		d := string(tree[0].Path)
+		nm := r.Pick([]string{"newdir", "new.d", "n n", "zz*z"})
+		add := []SField{{"", QBare, lit("dir")}, {" ", r.Intn(3), pathToks(d + "/" + nm)}}
+		var pat []Tok
+		switch r.Intn(3) {
+		case 0:
+			pat = append(pathToks(d+"/"+nm[:1]), Tok{TStar, 0})
+		case 1:
+			pat = append(append(pathToks(d+"/"), Tok{TStar, 0}), pathToks(nm[len(nm)-1:])...)
+		default:
+			pat = append(pathToks(d+"/"), Tok{TStar, 0})
+		}
+		om := []SField{{"", QBare, lit("omit")}, {" ", r.Intn(3), pat}}
+		items = append(items, itemJ{Fields: toJ(add)}, itemJ{Fields: toJ(om)})
+		lines = append(lines, RenderLine(add, ""), RenderLine(om, ""))
+	}
 	li := &ListInput{Tree: tree, Init: init, HasItems: true, Items: items, Lines: common.Bs(lines), CRLF: r.Chance(1, 10)}
 	if r.Chance(1, 8) { // raw script: structured lines damaged
 		li.HasItems = false
